@@ -1,3 +1,10 @@
 module verif
 
 go 1.26
+
+require golang.org/x/tools v0.32.0
+
+require (
+	golang.org/x/mod v0.24.0 // indirect
+	golang.org/x/sync v0.13.0 // indirect
+)
